@@ -437,6 +437,7 @@ func TestCheck(t *testing.T) {
 
 	rec.Unfreeze()
 	evalSessions(t, rec)
+	t.Run("disable-later", func(t *testing.T) { disableLater(t, rec) })
 }
 
 func classify(rec *ev.Rec, rs resolution, c *replayCase, dset map[string]bool, p *prog.P) {
